@@ -98,6 +98,19 @@ func init() {
 			if c.IsFalse() {
 				panic(pathEnd{"assume false"})
 			}
+			if c.IsTrue() {
+				return nil
+			}
+			// keep the path condition satisfiable (needed by query slicing)
+			if !ex.replaying() {
+				if res, _ := ex.solve(append(ex.pcCopy(), c), false); res == Unsat {
+					ex.decide(1, 1, "assume-unsat")
+					panic(pathEnd{"assume unsat"})
+				}
+				ex.decide(0, 1, "assume")
+			} else if ex.decide(0, 1, "assume") == 1 {
+				panic(pathEnd{"assume unsat"})
+			}
 			ex.addPC(c)
 			return nil
 		},
